@@ -66,6 +66,7 @@ type VerifOp struct {
 	Slot     string        `json:"slot,omitempty"`   // hold / stale: dataset handle; keep / cont: continuation
 	Method   string        `json:"method,omitempty"` // http: DELETE | POST | PATCH on /datasets/<seg>
 	Seg      string        `json:"seg,omitempty"`    // http: the path segment as the client sends it (escaped)
+	Kind     string        `json:"kind,omitempty"`   // create / crash create: "" | proxy | virtual (remote / transform are never contacted)
 }
 
 type VerifCase struct {
@@ -172,11 +173,21 @@ type verifHub struct {
 // VerifC07HTTP is set by the driver's main to the shim in package web (dataset handlers behind an echo router)
 var VerifC07HTTP func(store *Store, dsm *DsManager, method, path, body string) (int, string)
 
-func verifCreateCfg(public bool) *CreateDatasetConfig {
-	if !public {
+func verifCreateCfg(public bool, kind string) *CreateDatasetConfig {
+	if !public && kind == "" {
 		return nil
 	}
-	return &CreateDatasetConfig{PublicNamespaces: []string{"http://v/"}}
+	cfg := &CreateDatasetConfig{}
+	if public {
+		cfg.PublicNamespaces = []string{"http://v/"}
+	}
+	switch kind {
+	case "proxy":
+		cfg.ProxyDatasetConfig = &ProxyDatasetConfig{RemoteURL: "http://127.0.0.1:1/datasets/none"}
+	case "virtual":
+		cfg.VirtualDatasetConfig = &VirtualDatasetConfig{Transform: "ZnVuY3Rpb24gdCgpe30="}
+	}
+	return cfg
 }
 
 func (h *verifHub) open() {
@@ -266,7 +277,7 @@ func verifDoOp(h *verifHub, op VerifOp, idx int, times map[int]int64, tokens map
 	store := h.store
 	switch op.Op {
 	case "create":
-		if _, err := h.dsm.CreateDataset(op.Ds, verifCreateCfg(op.Public)); err != nil {
+		if _, err := h.dsm.CreateDataset(op.Ds, verifCreateCfg(op.Public, op.Kind)); err != nil {
 			oo.Err = err.Error()
 		}
 	case "restart":
@@ -454,7 +465,7 @@ func verifDoOp(h *verifHub, op VerifOp, idx int, times map[int]int64, tokens map
 			var err error
 			switch op.Mop {
 			case "create":
-				_, err = h.dsm.CreateDataset(op.Ds, verifCreateCfg(op.Public))
+				_, err = h.dsm.CreateDataset(op.Ds, verifCreateCfg(op.Public, op.Kind))
 			case "delete":
 				err = h.dsm.DeleteDataset(op.Ds)
 			case "rename":
